@@ -133,6 +133,26 @@ def script (name : String) : Option (JV → Bool) :=
   else if name = "lt3" then some fun v => match intOf (some v) with | some i => decide (i < 3) | none => false   -- @ < 3
   else none
 
+/-! ### root-relative filter scripts (`$.q` as an operand): root → element → truth value
+
+`==` of the script language on the values the trees contain (no floats): true iff both sides are the same
+integer here (one side is `$.q`, an integer or absent); `!=` is its negation. -/
+
+def keyQ : Bytes := [113]
+
+def eqInt (x y : Option JV) : Bool :=
+  match intOf x, intOf y with
+  | some i, some j => decide (i = j)
+  | _, _ => false
+
+def rscript (name : String) : Option (JV → JV → Bool) :=
+  if name = "eqq" then some fun r v => eqInt (some v) (memberOf keyQ r)                 -- @ == $.q
+  else if name = "neqq" then some fun r v => !eqInt (some v) (memberOf keyQ r)          -- @ != $.q
+  else if name = "aeqq" then some fun r v => eqInt (memberOf keyA v) (memberOf keyQ r)  -- @.a == $.q
+  else if name = "aneqq" then some fun r v => !eqInt (memberOf keyA v) (memberOf keyQ r) -- @.a != $.q
+  else if name = "qeqa" then some fun r v => eqInt (memberOf keyQ r) (memberOf keyA v)  -- $.q == @.a
+  else none
+
 /-! ### path text → fragments -/
 
 def parseOptInt (s : String) : Option (Option Int) :=
@@ -144,7 +164,10 @@ def parseMember (s : String) : Option Member :=
   | 'i' :: r => (String.ofList r).toInt?.map Member.idx
   | _ => none
 
-def parseFrag (s : String) : Option Frag :=
+/-- `root`: the document (what `$` in a filter stands for). `elemRoot`: the deviation `t` at this fragment — `$` stands
+for the element under test (modify.go and filter.go `remove`/`removeOne` use `Script.Match` for a filter in last
+position, whose root is the element itself). -/
+def parseFrag (root : JV) (elemRoot : Bool) (s : String) : Option Frag :=
   if s = "w" then some .wild
   else if s = "d" then some .descent
   else
@@ -156,11 +179,28 @@ def parseFrag (s : String) : Option Frag :=
       match parseOptInt a, parseOptInt b, parseOptInt c with
       | some a, some b, some c => some (.slice a b c)
       | _, _, _ => none
-    | ["f", name] => (script name).map Frag.filter
+    | ["f", name] =>
+      match script name with
+      | some p => some (.filter p)
+      | none => (rscript name).map fun p => Frag.filter (if elemRoot then fun v => p v v else p root)
     | _ => none
 
-def parsePath (s : String) : Option (List Frag) :=
-  if s = "-" then some [] else (s.splitOn "/").mapM parseFrag
+def parseFrags (root : JV) (lastElemRoot : Bool) : List String → Option (List Frag)
+  | [] => some []
+  | [s] => (parseFrag root lastElemRoot s).map fun f => [f]
+  | s :: r =>
+    match parseFrag root false s, parseFrags root lastElemRoot r with
+    | some f, some fs => some (f :: fs)
+    | _, _ => none
+
+/-- the path as the specification reads it (`$` in a filter is the document) -/
+def parsePath (root : JV) (s : String) : Option (List Frag) :=
+  if s = "-" then some [] else parseFrags root false (s.splitOn "/")
+
+/-- the path as the code reads it under the driver-level deviation `t` (filterRootLast): Modify and Remove
+evaluate a filter in last position with the element as `$` -/
+def parsePathT (root : JV) (t : Bool) (s : String) : Option (List Frag) :=
+  if s = "-" then some [] else parseFrags root t (s.splitOn "/")
 
 def parseBool (s : String) : Option Bool :=
   if s = "1" then some true else if s = "0" then some false else none
@@ -168,17 +208,31 @@ def parseBool (s : String) : Option Bool :=
 def parseDev (s : String) : Option Dev :=
   if s = "C" then some Dev.current
   else if s = "-" then some Dev.fixed
-  else if s.toList.all fun c => "iezsuonfr".toList.contains c then
+  else if s.toList.all fun c => "iezsuonfra".toList.contains c then
     some { sliceInclusive := s.contains 'i', removeStepEnd := s.contains 'e', setEmptySlice := s.contains 'z',
            descentSiblings := s.contains 's', removeUnionNeg := s.contains 'u', genUnionOOB := s.contains 'o',
-           genModifyNil := s.contains 'n', filterMapNil := s.contains 'f', rootScalar := s.contains 'r' }
+           genModifyNil := s.contains 'n', filterMapNil := s.contains 'f', rootScalar := s.contains 'r',
+           delOneAbsent := s.contains 'a' }
   else none
+
+/-- the driver-level deviation `t` (filterRootLast), on in the code as it is: it lives in the reading of the path, not
+in `Dev` (a `Frag.filter` carries a predicate on the element; which document `$` names is fixed when the path is read) -/
+def currentT : Bool := true
+
+/-- the letters of a request: `C` is the code as it is, `t` is split off the others -/
+def parseDevT (s : String) : Option (Dev × Bool) :=
+  if s = "C" then some (Dev.current, currentT)
+  else
+    let t := s.contains 't'
+    let rest := String.ofList (s.toList.filter (· != 't'))
+    (parseDev (if rest = "" then "-" else rest)).map fun d => (d, t)
 
 /-- the letters of the deviations a `Dev` has on -/
 def devLetters (d : Dev) : String :=
   let l := (if d.sliceInclusive then "i" else "") ++ (if d.removeStepEnd then "e" else "") ++ (if d.setEmptySlice then "z" else "") ++
     (if d.descentSiblings then "s" else "") ++ (if d.removeUnionNeg then "u" else "") ++ (if d.genUnionOOB then "o" else "") ++
-    (if d.genModifyNil then "n" else "") ++ (if d.filterMapNil then "f" else "") ++ (if d.rootScalar then "r" else "")
+    (if d.genModifyNil then "n" else "") ++ (if d.filterMapNil then "f" else "") ++ (if d.rootScalar then "r" else "") ++
+    (if d.delOneAbsent then "a" else "")
   if l = "" then "-" else l
 
 def parseModifier (s : String) : Option Modifier :=
@@ -230,12 +284,16 @@ def parseOp (op arg : String) : Option Op :=
 
 def judgeOk (one : Bool) (x : List Frag) (d d' : JV) (op : Op) : String :=
   if one then
-    if sameV d' d then "ok"
-    else if (locs x d).any fun p => sameV d' (single p d op) then "ok"
+    if (locs x d).any fun p => sameV d' (single p d op) then "ok"
     else
       match op with
-      | .set v => if (creates v x d).any fun c => sameV d' (insAll [c] d) then "ok" else "viol one"
-      | _ => "viol one"
+      | .set v =>
+        if (creates v x d).any fun c => sameV d' (insAll [c] d) then "ok"
+        else if (locs x d).isEmpty && (creates v x d).isEmpty && sameV d' d then "ok"
+        else if sameV d' d then "viol one-none" else "viol one"
+      | _ =>
+        if (locs x d).isEmpty && sameV d' d then "ok"
+        else if sameV d' d then "viol one-none" else "viol one"
   else if sameV d' (expected x d op) then "ok"
   else if !frameB (frameSet x d op) d d' then "viol frame"
   else
@@ -250,23 +308,39 @@ def judgeErr (x : List Frag) (d d' : JV) (op : Op) : String :=
 
 def handle : List String → String
   | [op, gen, dev, one, path, data, arg] =>
-    match parseOp op arg, parseBool gen, parseDev dev, parseBool one, parsePath path, parseJV data with
-    | some o, some gen, some dev, some one, some x, some d => renderOut (runModel gen dev one x d o)
-    | _, _, _, _, _, _ => "bad-op"
+    match parseOp op arg, parseBool gen, parseDevT dev, parseBool one, parseJV data with
+    | some o, some gen, some (dev, t), some one, some d =>
+      let t := t && (match o with | .mod _ => true | .rem => true | _ => false)
+      match parsePathT d t path with
+      | some x => renderOut (runModel gen dev one x d o)
+      | none => "bad-op"
+    | _, _, _, _, _ => "bad-op"
   | ["spec", op, path, data, arg] =>
-    match parseOp op arg, parsePath path, parseJV data with
-    | some o, some x, some d =>
+    match parseOp op arg, parseJV data with
+    | some o, some d =>
+     match parsePath d path with
+     | none => "bad-op"
+     | some x =>
       renderPaths (locs x d) ++ " " ++
       (match o with | .set v => renderPaths ((creates v x d).map (·.1)) | _ => "none") ++ " " ++ (expected x d o).render
-    | _, _, _ => "bad-op"
+    | _, _ => "bad-op"
   | ["judge", op, one, path, data, arg, outcome, after] =>
-    match parseOp op arg, parseBool one, parsePath path, parseJV data, parseJV after with
-    | some o, some one, some x, some d, some d' =>
-      if outcome = "ok" then judgeOk one x d d' o
-      else if outcome = "err" then judgeErr x d d' o
-      else "bad-op"
-    | _, _, _, _, _ => "bad-op"
-  | ["current"] => devLetters Dev.current
+    match parseOp op arg, parseBool one, parseJV data, parseJV after with
+    | some o, some one, some d, some d' =>
+      match parsePath d path with
+      | none => "bad-op"
+      | some x =>
+        if outcome = "ok" then judgeOk one x d d' o
+        else if outcome = "err" then judgeErr x d d' o
+        else "bad-op"
+    | _, _, _, _ => "bad-op"
+  | ["current"] =>
+    let l := devLetters Dev.current
+    if currentT then (if l = "-" then "t" else l ++ "t") else l
+  | ["rscript", name, root, value] =>
+    match rscript name, parseJV root, parseJV value with
+    | some p, some r, some v => toString (p r v)
+    | _, _, _ => "bad-op"
   | ["script", name, value] =>
     match script name, parseJV value with
     | some p, some v => toString (p v)
